@@ -774,6 +774,37 @@ def verify(run, faulted):
     if nstored:
         obs.add('A3:stored-other')
 
+    # --- A3r: retrying the interrupted store itself (same model, same name) ------------------------
+    # Either refused with the documented PendingTransactionError, or it succeeds and the entry is
+    # then complete: never a partially written entry committed by the retry.
+    if fl_store and fl['c'] < len(ctxs):
+        c, name, i = fl['c'], fl['name'], fl['m']
+        ctx = ctxs[c]
+        entry = pool.entry(i)
+        fn = {'store': ctx.store_model_entry, 'store_input': ctx.store_input_model_entry, 'store_final': ctx.store_final_model_entry}[fl['kind']]
+        try:
+            with contextlib.redirect_stdout(io.StringIO()):
+                fn(entry)
+            refused = False
+        except PendingTransactionError:
+            refused = True
+            obs.add('A3r:retry-refused-pending')
+        except Exception as e:
+            where = innermost_pharmpy_frame(e)
+            if where == 'outside-pharmpy':
+                raise HarnessError(f'retry of the interrupted store: {type(e).__name__}: {e}')
+            raise Violation(f'A3r:retry-inflight-store:{type(e).__name__}@{where}', detail=f'{fl["kind"]} of M{i} as {name!r}: {type(e).__name__}: {str(e)[:300]}')
+        if not refused:
+            obs.add('A3r:retry-succeeded')
+            me = _vcall('A3r:retry-inflight-store:retrieve', lambda: ctx.retrieve_model_entry(name), detail=f'{fl["kind"]} of M{i} as {name!r} succeeded on retry')
+            df = diff_model(me.model, pool.model(i, name=name))
+            if df is not None:
+                raise Violation(f'A3r:retry-inflight-store:retrieved:model.{df[0]}', observed=df[1], expected=df[2], detail=f'{fl["kind"]} of M{i} as {name!r} succeeded on retry')
+            rid = fl['rid'] if fl['rid'] is not None else (ref.db[fl_key]['rid'] if fl_key in ref.db else None)
+            dr = diff_results(me.modelfit_results, Pool.results(rid))
+            if dr is not None:
+                raise Violation(f'A3r:retry-inflight-store:retrieved:{dr[0]}', observed=dr[1], expected=dr[2], detail=f'{fl["kind"]} of M{i} as {name!r} succeeded on retry')
+
     # --- log append after restart keeps earlier rows (A4) and is itself retrievable (F) ------------
     msg = 'after restart, "ok"'
     _vcall('A4:log-after-restart', lambda: top.log_info(msg))
@@ -975,7 +1006,7 @@ def run_case(spec):
     inside = kind in STORES and a < plan.k <= b
     # committed model entries before the step in flight
     nontrivial = bool(inside and run.ref.nstores >= 1)
-    classes = [f'mode:{plan.mode}', f'inflight:{kind}', f'at:{ent["op"]}:{_norm_path(ent["path"])}']
+    classes = [f'mode:{plan.mode}', f'inflight:{kind}', f'at:{ent["op"]}:{_norm_path(ent["path"])}'] + sorted(_prefix_classes(plan))
     if torn:
         classes.append('torn-write')
     if inside:
@@ -995,7 +1026,33 @@ def _text_classes(plan):
         out.add('name:' + _text_class(m['name']))
         out.add('desc:' + _text_class(m['desc']))
     out.add('top:' + _text_class(plan.top))
+    out |= _prefix_classes(plan)
     return sorted(out)
+
+
+def _prefix_classes(plan):
+    """'prefix-pair': two names of the pool, one a proper prefix of the other;
+    'prefix-pair:short-after-long': ... and, in one context, the shorter one gets stored/annotated after
+    the longer one (what overwrites a neighbour when annotation lines are matched by prefix)."""
+    out = set()
+    names = sorted({m['name'] for m in plan.models} | {'input', 'final'})
+    pairs = {(a, b) for a in names for b in names if a != b and b.startswith(a)}
+    pool_pairs = {(a, b) for a, b in pairs if a not in ('input', 'final') or b not in ('input', 'final')}
+    if any(a in {m['name'] for m in plan.models} and b in {m['name'] for m in plan.models} for a, b in pool_pairs):
+        out.add('prefix-pair')
+    seen = {}  # context index (as given) -> names written so far
+    nctx = 1
+    for o in plan.ops:
+        c = o['c'] % nctx
+        if o['kind'] == 'subctx' and nctx < 3:
+            nctx += 1
+            continue
+        if o['kind'] in STORES or o['kind'] == 'annotate':
+            nm = {'store_input': 'input', 'store_final': 'final'}.get(o['kind'], plan.models[o['m']]['name'])
+            if any((nm, longer) in pairs for longer in seen.get(c, ())):
+                out.add('prefix-pair:short-after-long')
+            seen.setdefault(c, set()).add(nm)
+    return out
 
 
 def _na_like(t):
@@ -1042,6 +1099,9 @@ _SPECIAL = [
     'NA', '', 'nan', 'null', 'None', 'N/A', '1', '1.5', 'True', 'a,b', 'say "hi"', '"', "it's", 'a b', ' lead', 'trail ',
     'über', 'Ж日本', 'a\nb', 'a\r\nb', 'tab\there', 'a;b', '#c', '-', 'ctx,2020,info,"x"', 'run1', 'x' * 30, 'é', '%s', '\\', "a'b",
 ]
+# name families in which one name is a proper prefix of another (run1 / run10, base / base_iiv, final / final2)
+_FAMILY = st.tuples(st.shared(_SAFE, key='c16-name-stem'), st.sampled_from(['', '', '0', '1', '10', '_iiv', '2'])).map(''.join)
+_FAMILY = st.one_of(_FAMILY, _FAMILY, st.sampled_from(['final2', 'input_1', 'inputs', 'finalized']))
 _TEXT = st.one_of(_SAFE, st.sampled_from(_SPECIAL), st.sampled_from(_SPECIAL), st.text(alphabet=list('ab1 ,"\'\n;#ü日.-_\\'), max_size=8))
 _BENIGN = st.one_of(_SAFE, st.sampled_from(['a,b', 'say "hi"', 'two words', 'line1\nline2', 'über', 'x;y']))
 _META = st.dictionaries(st.sampled_from(['a', 'tool', 'n', 'ü']), st.one_of(st.integers(-5, 5), st.booleans(), st.none(), st.sampled_from(['x', 'a,b', '"q"', '', 'NA']), st.lists(st.integers(0, 3), max_size=2), st.floats(-2, 2, allow_nan=False).map(lambda x: round(x, 3))), max_size=3)
@@ -1061,8 +1121,8 @@ def _workload(text, names, benign):
     )
 
 
-WORKLOAD_TEXT = _workload(_TEXT, st.one_of(_SAFE, _SAFE, _TEXT), benign=False)
-WORKLOAD_BENIGN = _workload(_BENIGN, _SAFE, benign=True)
+WORKLOAD_TEXT = _workload(_TEXT, st.one_of(_SAFE, _FAMILY, _FAMILY, _TEXT), benign=False)
+WORKLOAD_BENIGN = _workload(_BENIGN, st.one_of(_SAFE, _FAMILY), benign=True)
 
 
 def _faithful_strategy():
@@ -1102,7 +1162,7 @@ def _o(op, m=0, c=0, t='', sev=0, wm=False, meta=None):
 
 CANONICAL = [
     # A and B share dataset d0, C has its own dataset and results
-    dict(top='ctx', models=[_m(0, 0, 0, 'run1', 'first, model'), _m(1, 0, 1, 'run2', 'second "model"'), _m(2, 1, 2, 'run3', 'third', 'warn, "x"\nnext')],
+    dict(top='ctx', models=[_m(0, 0, 0, 'run10', 'first, model'), _m(1, 0, 1, 'run1', 'second "model"'), _m(2, 1, 2, 'run2', 'third', 'warn, "x"\nnext')],
          ops=[_o('store', 0), _o('store', 1), _o('store', 2), _o('retrieve', 0)]),
     # what every tool does: input, log, final = same model again (now with results)
     dict(top='ctx', models=[_m(0, 0, 0, 'base', 'input model', as_model=True), _m(0, 0, 2, 'base', 'input model', 'note'), _m(3, 0, 1, 'cand', 'candidate')],
@@ -1525,11 +1585,152 @@ def selfcheck():
         shutil.rmtree(root, ignore_errors=True)
 
 
+# ---------------------------------------------------------------------------------------------
+# two concurrent writers of one annotations file under an owned schedule
+
+
+def _conc_plan(spec):
+    if not isinstance(spec, dict):
+        raise Reject('spec is not a dict')
+
+    def pairs(x, fb, n):
+        out = []
+        for j, it in enumerate((x or [])[:n]):
+            if isinstance(it, (list, tuple)) and len(it) == 2:
+                out.append((_clean_name(it[0], fb).replace(' ', '_'), _BAD_LINE.sub('', str(it[1]))[:30]))
+        return out
+
+    pre = pairs(spec.get('pre'), 'p', 2)
+    w = [pairs(spec.get('w0'), 'a', 2), pairs(spec.get('w1'), 'b', 2)]
+    for t in (0, 1):
+        if not w[t]:
+            w[t] = [('ab'[t] + '_name', 'text ' + 'ab'[t])]
+    sched = [int(x) % 2 for x in (spec.get('sched') or [])[:48] if isinstance(x, (int, bool))]
+    return pre, w, sched
+
+
+def run_concurrent_annotations(spec):
+    """Two threads, each with its own LocalDirectoryContext on the same directory, call
+    store_annotation; the schedule (which thread performs the next intercepted file-system call or
+    lock attempt) is owned by the spec.  Afterwards every annotation whose store returned must be
+    retrievable: for a name written by one writer its last text, for a name written by both the last
+    text of either; annotations present before stay unless overwritten."""
+    import threading
+
+    import pharmpy.internals.fs.lock as lockmod
+    import pharmpy.workflows.contexts.local_directory as cmod
+    import pharmpy.workflows.model_database.local_directory as dmod
+    from pharmpy.workflows import LocalDirectoryContext
+
+    pre, w, sched = _conc_plan(spec)
+    root = _scratch()
+    faultfs.assert_clean()
+    gate = faultfs.TurnGate(sched, timeout=10.0, max_steps=200)
+    saved = (cmod.path_lock, dmod.path_lock)
+    errors = {}
+    outcome = None
+    threads = []
+    try:
+        top = LocalDirectoryContext('ctx', ref=root)
+        for name, text in pre:
+            top.store_annotation(name, text)
+        ctxs = [LocalDirectoryContext('ctx', ref=root) for _ in (0, 1)]
+        coop = faultfs.cooperative_path_lock(gate, lockmod.path_lock, lockmod.AcquiringLockWouldBlockError)
+        cmod.path_lock = coop
+        dmod.path_lock = coop
+
+        def worker(tid):
+            try:
+                gate.register(tid)
+                for name, text in w[tid]:
+                    ctxs[tid].store_annotation(name, text)
+            except BaseException as e:  # noqa
+                errors[tid] = e
+            finally:
+                gate.finish(tid)
+
+        fs = FaultFS(root, mode='none', gate=gate)
+        try:
+            with fs:
+                for tid in (0, 1):
+                    gate.expect(tid)
+                    th = threading.Thread(target=worker, args=(tid,), daemon=True, name=f'c16-writer-{tid}')
+                    threads.append(th)
+                    th.start()
+                try:
+                    outcome = gate.run()
+                except faultfs.GateTimeout as e:
+                    outcome = f'timeout: {e}'
+                gate.release_all()
+                for th in threads:
+                    th.join(10.0)
+        finally:
+            gate.release_all()
+            faultfs.restore_all()
+        if any(th.is_alive() for th in threads):
+            outcome = 'timeout: worker still running'
+        if outcome != 'done':
+            kind = 'deadlock' if outcome == 'deadlock' else 'timeout'
+            return CaseInfo(nontrivial=False, classes=(f'inconclusive:{kind}',), render=dict(pre=pre, w0=w[0], w1=w[1], outcome=outcome))
+        fs.close_leftovers()
+        for tid, e in sorted(errors.items()):
+            if isinstance(e, Exception):
+                where = innermost_pharmpy_frame(e)
+                raise Violation(
+                    f'C:store_annotation:{type(e).__name__}@{where}', detail=f'writer {tid} storing {w[tid]}: {type(e).__name__}: {str(e)[:200]}; schedule {[t for t, _, _ in gate.trace]}'
+                )
+            raise HarnessError(f'writer {tid}: {type(e).__name__}: {e}')
+        # expected final annotations
+        exp = {}
+        for name, text in pre:
+            exp[name] = {text}
+        last = [dict(), dict()]
+        for tid in (0, 1):
+            for name, text in w[tid]:
+                last[tid][name] = text
+        for name in set(last[0]) | set(last[1]):
+            exp[name] = {last[t][name] for t in (0, 1) if name in last[t]}
+        cmod.path_lock, dmod.path_lock = saved
+        fresh = LocalDirectoryContext('ctx', ref=root)
+        order = [t for t, _, _ in gate.trace]
+        for name, texts in sorted(exp.items()):
+            try:
+                got = fresh.retrieve_annotation(name)
+            except KeyError:
+                raise Violation('C:annotation-lost', observed=None, expected=sorted(texts), detail=f'name {name!r}; writers {w}; pre {pre}; schedule {order}')
+            if got not in texts:
+                raise Violation('C:annotation-wrong', observed=got, expected=sorted(texts), detail=f'name {name!r}; writers {w}; pre {pre}; schedule {order}')
+    finally:
+        cmod.path_lock, dmod.path_lock = saved
+        gate.release_all()
+        faultfs.restore_all()
+        if not any(th.is_alive() for th in threads):
+            pass
+        shutil.rmtree(root, ignore_errors=True)
+    switches = sum(1 for a, b in zip(order, order[1:]) if a != b)
+    first_done = max(i for i, t in enumerate(order) if t == order[0]) < min(i for i, t in enumerate(order) if t != order[0]) if len(set(order)) == 2 else True
+    classes = ['interleaved' if not first_done else 'serial', f'switches:{min(switches, 6)}']
+    if gate.contended:
+        classes.append('lock-contention')
+    if set(last[0]) & set(last[1]):
+        classes.append('same-name-both-writers')
+    return CaseInfo(nontrivial=False, classes=tuple(classes), render=dict(pre=pre, w0=w[0], w1=w[1], schedule=order, steps=len(order)))
+
+
+def _conc_strategy():
+    nm = st.one_of(_SAFE, _FAMILY)
+    pair = st.tuples(nm, _BENIGN.filter(lambda t: '\n' not in t)).map(list)
+    return st.fixed_dictionaries(
+        dict(pre=st.lists(pair, max_size=2), w0=st.lists(pair, min_size=1, max_size=2), w1=st.lists(pair, min_size=1, max_size=2), sched=st.lists(st.integers(0, 1), min_size=10, max_size=40))
+    )
+
+
 SUBCHECKS = [
     SubCheck('faithful', _faithful_strategy, run_case, quick=256, thorough=6000, quick_time=400.0, describe='fault-free workloads with adversarial text'),
     SubCheck(
         'faults', _sampled_strategy, run_fault, quick=64, thorough=3200, enumerate=enum_faults, quick_time=600.0, thorough_time=3000.0,
         describe='every operation k of the enumerated workloads in mode crash (+ torn writes) and enospc; plus generated workloads with a sampled fault point',
     ),
+    SubCheck('concurrent_annotations', _conc_strategy, run_concurrent_annotations, quick=160, thorough=4000, describe='two writers of one annotations file, schedule owned at file-system-call granularity'),
     SubCheck('sim_vs_kill', None, run_sim_vs_kill, quick=0, thorough=0, enumerate=enum_sim_vs_kill, describe='simulation vs forked child killed by os._exit'),
 ]
